@@ -172,6 +172,12 @@ def c13a_gate(ck, prog):
                 d1, d2 = src_of(c.args[1]), src_of(c.args[2])
                 src = d1[-60:] + " | " + d2[-60:]
                 ok = re.search(r"split_once\(.*@Continue\.0\.0$|split_once\(.*@Some\.0\.0$", d1) is not None and re.search(r"split_once\(.*@Continue\.0\.1$|split_once\(.*@Some\.0\.1$", d2) is not None
+                if not ok:
+                    # the same halves by position of the first colon: (&c[..i], &c[i + 1..]) with i = c.find(':')
+                    m1 = re.search(r"index\((.*),RangeTo\{(.*)\}\)$", d1)
+                    m2 = re.search(r"index\((.*),RangeFrom\{Add(?:WithOverflow|Unchecked)?\((.*),const 1\)(?:\.0)?\}\)$", d2)
+                    ok = bool(m1 and m2 and m1.group(1) == m2.group(1) and m1.group(2) == m2.group(2)
+                              and re.search(r"(?<![r\w])find\(", m1.group(2)) and "const ':'" in m1.group(2) and "rfind(" not in m1.group(2))
                 ck.ob("C13-a MUSTPASS gate", "%s:matches-args" % which, ok, g.loc(c.sp),
                       "" if ok else "matches() is called with (..%s), expected (first half, second half) of split_once(':')" % src, how="matches(split.0, split.1)")
         # split_once(':') -- callee identity and the separator
@@ -182,6 +188,14 @@ def c13a_gate(ck, prog):
             cs = f.const_args(sp[0])
             sep = cs[1].get("ch") if cs[1] else None
             ok = sep == ":"
+        elif not sp:
+            # position of the FIRST colon (find, not rfind) followed by slicing: equivalent to split_once(':')
+            fd = [c for c in f.calls() if c.name in ("find", "rfind", "position", "rposition") and re.search(r"^core::str::<impl str>::", c.callee or "")]
+            if len(fd) == 1 and fd[0].name == "find":
+                cs = f.const_args(fd[0])
+                sep = cs[1].get("ch") if len(cs) > 1 and cs[1] else None
+                ok = sep == ":"
+                sp = fd
         ck.ob("C13-a MUSTPASS gate", "%s:first-colon-split" % which, ok, f.loc(sp[0].sp if sp else None),
               "" if ok else "credential is split with %s(%r), expected exactly one split_once(':') (user = text before the FIRST colon)" % ([c.name for c in sp], sep),
               how="split_once(':')")
@@ -264,4 +278,4 @@ def c13c(ck, prog):
     rr = ReachRule(ck, prog, "C13-c REACH", roots, audit=AUDIT, boundary=[r"^core::convert::AsRef::as_ref$"],
                    stop=[r"^ohkami::response::", r"<impl ohkami::response::Response>", r"^ohkami::request::headers::"])
     sinks = rr.run()
-    ck.floor("C13-c REACH", "sinks examined", len(sinks), 1)
+    ck.floor("C13-c REACH", "functions reached", len(rr.R.reached), 3)
